@@ -21,6 +21,14 @@ def strip_await(e):
 _TXT_CACHE = {}
 
 
+class _NoAwaitUnparser(ast._Unparser):
+    """ast.unparse that prints ``await x`` as ``x`` (no copy of the tree is needed)."""
+
+    def visit_Await(self, node):
+        self.set_precedence(self.get_precedence(node), node.value)
+        self.traverse(node.value)
+
+
 def txt(e):
     """Canonical text of an expression (awaits stripped)."""
     if e is None:
@@ -31,10 +39,7 @@ def txt(e):
     hit = _TXT_CACHE.get(k)
     if hit is not None and hit[0] is e:
         return hit[1]
-    if any(isinstance(n, ast.Await) for n in ast.walk(e)):
-        s = ast.unparse(_StripAwait().visit(copy.deepcopy(e)))
-    else:
-        s = ast.unparse(e)
+    s = _NoAwaitUnparser().visit(e)
     if len(_TXT_CACHE) > 200000:
         _TXT_CACHE.clear()
     _TXT_CACHE[k] = (e, s)
